@@ -360,11 +360,17 @@ func (ps *PathSim) tables() *GlobalModel {
 
 // defaultMaxSteps bounds the work of one simulator (the largest exploration on the unchanged tree enters about 20 thousand
 // blocks); exhaustedSims names the functions whose exploration was cut by it — runCheck turns each into an "undecided" failure.
-const defaultMaxSteps = 3000000
+const defaultMaxSteps = 1000000
+
+// totalMaxSteps bounds the work of all simulators of one run together (the most expensive check enters about 70 thousand
+// blocks in all on the reference tree).
+const totalMaxSteps = 3000000
 
 var (
-	stepsHigh     int64
-	exhaustedSims []string
+	stepsHigh      int64
+	stepsTotal     int64
+	totalExhausted bool
+	exhaustedSims  []string
 )
 
 func NewPathSim(prog *Program) *PathSim {
@@ -1592,8 +1598,21 @@ func (ps *PathSim) walk(fn *ssa.Function, b *ssa.BasicBlock, start int, pred *ss
 			return
 		}
 		ps.steps++
+		stepsTotal++
 		if ps.steps > stepsHigh {
 			stepsHigh = ps.steps
+		}
+		if stepsTotal > totalMaxSteps {
+			// the whole run is out of proportion (every scenario of a rule hitting its own budget would take minutes): stop
+			// exploring; the check is undecided
+			if !ps.Exhausted {
+				ps.Exhausted = true
+				if !totalExhausted {
+					totalExhausted = true
+					exhaustedSims = append(exhaustedSims, "all simulators together (last: "+fn.String()+")")
+				}
+			}
+			return
 		}
 		if ps.MaxSteps > 0 && ps.steps > ps.MaxSteps {
 			if !ps.Exhausted {
